@@ -201,7 +201,9 @@ func ZZ_T_step() {
 		err = tr.StartRecording(bg, th)
 		avail := zzAvail(a, l, k1, cap, q)
 		if avail >= minR {
-			zzReach("start forwarded")
+			if cap >= minR {
+				zzReach("start forwarded")
+			}
 			zzAssert(base.starts == 1 && base.bg == bg && base.thresh == th, "C06: start within budget is forwarded unchanged")
 			if base.failStart {
 				zzAssert(err != nil && err == base.startErr && !tr.recording, "C06: a failing wrapped start is reported and leaves the throttle closed")
@@ -225,7 +227,9 @@ func ZZ_T_step() {
 		if !rec {
 			avail := zzAvail(a, l, k1, cap, q)
 			if avail >= minR {
-				zzReach("mid-trigger restart attempted")
+				if cap >= minR {
+					zzReach("mid-trigger restart attempted")
+				}
 				zzAssert(base.starts == 1 && base.bg == bgOld && base.thresh == thOld, "C06/C15: a mid-trigger restart reuses the trigger's background and threshold")
 				restarted = !base.failStart
 				if base.failStart {
